@@ -10,6 +10,10 @@
 //!     thread the owner of what it waits for (then r = completed).
 //! I3  the wait-for graph rebuilt from Block / Retarget / Wake is acyclic after every record.
 //! I4  no `Block(w, _, o)` is recorded when `o == w` or `o` already waits (transitively) for `w`.
+//! I6  a waiter is told "cancelled" only if the computation it waited for was unwound by a local
+//!     cancellation; local cancellation is deferred while the body of a function with cycle
+//!     recovery runs on the owner's thread (harness markers `cyc-enter` / `cyc-exit` in the same
+//!     trace), so no `Wake(w, cancelled)` may occur while the owner is inside such a span.
 //! I5  when the owner of handed-over queries releases them (the cascade `TransferEnded(o)`,
 //!     `Release(q, r)`, `TransferEnded(q)`, `Release(q', r')`, ... written under one lock), every
 //!     query is released with the outcome its owner was released with, at every nesting depth.
@@ -41,6 +45,8 @@ pub struct ProtoCheck {
     /// owners whose hand-overs are being dissolved in the cascade under way
     in_cascade: Vec<(u32, u64)>,
     pub nested_releases: u64,
+    /// thread -> number of open bodies of functions with cycle recovery (harness markers)
+    cyc_open: BTreeMap<u64, u32>,
 }
 
 #[derive(Default, Clone, Copy, PartialEq, Eq)]
@@ -142,9 +148,28 @@ impl ProtoCheck {
                     self.transferred.remove(query);
                     self.in_cascade.push(*query);
                 }
+                T::Raw("cyc-enter", t, _, _) => *self.cyc_open.entry(*t).or_default() += 1,
+                T::Raw("cyc-exit", t, _, _) => {
+                    if let Some(c) = self.cyc_open.get_mut(t) {
+                        *c = c.saturating_sub(1);
+                    }
+                }
                 T::Wake { thread, result } => {
                     if *result != 0 {
                         self.wakes_not_completed += 1;
+                    }
+                    if *result == 2 {
+                        if let Some((key, _)) = self.pending.get(thread) {
+                            let owner = self.waitfor.get(thread).copied();
+                            if let Some(o) = owner {
+                                if self.cyc_open.get(&o).copied().unwrap_or(0) > 0 {
+                                    out.push(v(
+                                        "c19-waiter-told-cancelled-while-owner-defers-cancellation",
+                                        format!("record #{i}: thread {thread:x} (waiting for {key:?}) is told that the computation was cancelled, but its owner {o:x} is inside a function with cycle recovery, where local cancellation is deferred: the computation ended for another reason"),
+                                    ));
+                                }
+                            }
+                        }
                     }
                     match self.pending.get(thread) {
                         None => out.push(v("c19-wake-without-wait", format!("record #{i}: thread {thread:x} woken although it is not waiting"))),
@@ -202,5 +227,6 @@ impl ProtoCheck {
         self.transferred.clear();
         self.last_release.clear();
         self.in_cascade.clear();
+        self.cyc_open.clear();
     }
 }
